@@ -101,6 +101,24 @@ def _impl(tier, seed, search):
                                           UnitQuaternion.RPY(angu, order=o, unit=unit).R), dict(angles=angu, order=o, unit=unit), 'RPY constructors')
         if ok:
             L.close('RPY:SE3', r[1], r[0], TOL, 1.0, dict(angles=angu, order=o, unit=unit)); L.close('RPY:UQ', r[2], r[0], TOL, 1.0, dict(angles=angu, order=o, unit=unit))
+        # the N x 3 (sequence) forms of the shared constructors: every row as the single call, in every class, every order
+        A3 = np.stack([angu, angu[::-1] * 0.5])
+        def seq_forms():
+            out_ = {}
+            for nm_, cls_ in (('SO3', SO3), ('SE3', SE3)):          # UnitQuaternion.RPY / Eul are documented for one angle triple only
+                Xs = cls_.RPY(A3, order=o, unit=unit)
+                out_[nm_ + '.RPY'] = [np.asarray(x_.R if nm_ == 'UQ' else x_.A[:3, :3], float) for x_ in Xs]
+                Es = cls_.Eul(A3, unit=unit)
+                out_[nm_ + '.Eul'] = [np.asarray(x_.R if nm_ == 'UQ' else x_.A[:3, :3], float) for x_ in Es]
+            return out_
+        ok, r = L.noraise('RPY/Eul(Nx3)', seq_forms, dict(angles=A3, order=o, unit=unit), 'sequence forms of RPY / Eul')
+        if ok:
+            want_rpy = [SO3.RPY(A3[k_], order=o, unit=unit).A for k_ in range(2)]; want_eul = [SO3.Eul(A3[k_], unit=unit).A for k_ in range(2)]
+            for nm_, got_ in r.items():
+                want_ = want_rpy if nm_.endswith('RPY') else want_eul
+                L.check(f'{nm_}(Nx3):len', len(got_) == 2, dict(order=o, unit=unit), f'{nm_}(N x 3) does not give N values', sig='ctor(Nx3)')
+                if len(got_) == 2:
+                    for g_, w_ in zip(got_, want_): L.close(f'{nm_}(Nx3)', g_, w_, TOL, 1.0, dict(angles=A3, order=o, unit=unit), what=f'{nm_}(N x 3 array) differs from the single-row call', sig='ctor(Nx3)')
         ok, r = L.noraise('Eul', lambda: (SO3.Eul(angu, unit=unit).A, SE3.Eul(angu, unit=unit).A[:3, :3], UnitQuaternion.Eul(angu, unit=unit).R), dict(angles=angu, unit=unit), 'Eul constructors')
         if ok:
             L.close('Eul:SE3', r[1], r[0], TOL, 1.0, dict(angles=angu)); L.close('Eul:UQ', r[2], r[0], TOL, 1.0, dict(angles=angu))
@@ -140,6 +158,19 @@ def _impl(tier, seed, search):
                 L.check('emb SE2->SE3(multi):len', len(r[0]) == 2, dict(X=e1.A, Y=e2.A), 'SE3() of a 2-valued SE2 does not hold 2 values')
                 if len(r[0]) == 2:
                     for k_ in range(2): L.close('emb SE2->SE3(multi)', r[0][k_], r[1][k_], TOL, max(1.0, geom.tmag(r[1][k_])), dict(X=e1.A, Y=e2.A, k=k_), sig='emb SE2->SE3(multi)')
+        # == and != are complementary and blind to the sign of the quaternion
+        qe = UnitQuaternion(A); qm = UnitQuaternion(-qe.vec, norm=False, check=False); qo = qe * UnitQuaternion.Rx(0.7)
+        ok, r = L.noraise('UQ eq/ne', lambda: (qe == qm, qe != qm, qe == qo, qe != qo, qe == UnitQuaternion(qe.vec), qe != UnitQuaternion(qe.vec)), dict(q=qe.vec), 'UnitQuaternion == / !=')
+        if ok: L.check('UQ eq/ne', [bool(x_) for x_ in r] == [True, False, False, True, True, False], dict(q=qe.vec), '== and != of unit quaternions are not complementary / not blind to the sign', observed=[bool(x_) for x_ in r], sig='UQ:eq-ne')
+        # product of a sequence of twists (3 and 4 values) equals the product of the motions
+        if i % 3 == 0:
+            Xs_ = [SE3(inputs.se3(g, 2), check=False) for _ in range(4)]
+            for nn_ in (3, 4):
+                ok, r = L.noraise('Twist3.prod', lambda: (Twist3([x_.Twist3() for x_ in Xs_[:nn_]]).prod().SE3().A, np.linalg.multi_dot([x_.A for x_ in Xs_[:nn_]])), dict(n=nn_), 'Twist3.prod()')
+                if ok: L.close('Twist3.prod', r[0], r[1], TOL, max(1.0, geom.tmag(r[1])), dict(n=nn_), what='prod() of a sequence of twists differs from the product of the motions', sig='Twist.prod')
+            Es_ = [SE2(inputs.se2(g, 2), check=False) for _ in range(3)]
+            ok, r = L.noraise('Twist2.prod', lambda: (Twist2([x_.Twist2() for x_ in Es_]).prod().SE2().A, np.linalg.multi_dot([x_.A for x_ in Es_])), {}, 'Twist2.prod()')
+            if ok: L.close('Twist2.prod', r[0], r[1], TOL, max(1.0, geom.tmag(r[1])), {}, sig='Twist.prod')
         # 2-D pose <-> twist
         ok, r = L.noraise('SE2->Twist2->SE2', lambda: e1.Twist2().SE2().A, dict(T=e1.A), 'SE2 -> Twist2 -> SE2')
         if ok: L.close('SE2->Twist2->SE2', r, e1.A, TOL, max(1.0, geom.tmag(e1.A)), dict(T=e1.A))
